@@ -212,6 +212,9 @@ pub fn run(ctx: &Ctx) -> i32 {
         }
         staged.push(stage(&dir, efg_file(name, tree, EfgStyle::PLAIN), staged.len()));
         staged.push(stage(&dir, efg_file(name, tree, EfgStyle { sum: 2.0, ..EfgStyle::PLAIN }), staged.len()));
+        // payoffs spread over interior nodes (outcomes on nodes below nodes that carry one), shared
+        // by number: still the same game, so still the library's solution of the model
+        staged.push(stage(&dir, efg_file(name, tree, EfgStyle { interior: true, share_outcomes: true, ..EfgStyle::PLAIN }), staged.len()));
     }
     ctx.set("games", json!(games.len()));
     ctx.set("files", json!(staged.len()));
@@ -254,7 +257,7 @@ pub fn run(ctx: &Ctx) -> i32 {
             return;
         }
         let name = st.file.label.clone();
-        if let Some(efg) = staged.iter().find(|o| o.file.format == "efg" && o.file.sum == 0.0 && o.file.label.starts_with(&format!("{}:", name))) {
+        for efg in staged.iter().filter(|o| o.file.format == "efg" && o.file.sum == 0.0 && o.file.label.starts_with(&format!("{}:", name))) {
             for discount in 0..5 {
                 let opts = Options { method: "full", discount, iters: 7, max_reg: 0.0, parallel: 1, clip: 0.0, route: 0, to_file: false };
                 if let (Some(a), Some(b)) = (check_run(ctx, st, &opts), check_run(ctx, efg, &opts)) {
